@@ -36,7 +36,21 @@ ASSUMPTIONS = [
 ]
 REQUIRED = {'zero-coordinate-at-map': 0.05, 'refit-on-same-optimizer': 0.15, 'sampler:nestle': 0.15, 'sampler:multinest': 0.15, 'weights:nonuniform': 0.3, 'has-derived': 0.2}
 
-DERIVED = ['mu', 'logg', 'avg_T']
+DERIVED = ['mu', 'logg', 'avg_T', 'T_excess']
+
+
+def install_excess(m):
+    """a user-defined derived parameter on the model, of the common clipped kind: max(T_surface - floor, 0) -- a python int 0
+    wherever the temperature is below the floor, a float above it (the floor is the model's temperature as built)"""
+    if 'T_excess' in m.derivedParameters:
+        return
+    floor = float(np.asarray(m.temperatureProfile, dtype=float)[0])
+
+    def t_excess(self):
+        return max(float(np.asarray(self.temperatureProfile, dtype=float)[0]) - floor, 0)
+    m.add_derived_param('T_excess', 'T_x', t_excess, False)
+    m.collect_derived_parameters()
+
 
 
 STRATA = {'nestle': 2, 'multinest-single': 1, 'multinest-multi': 1}
@@ -149,6 +163,8 @@ class Retrieval:
         self.ok = bool(np.all(np.isfinite(nspec)) and not np.all(nspec == 0))
         if not self.ok:
             return
+        if 'T_excess' in case.get('derived', []):
+            install_excess(self.m)
         self.obs = c06.make_observation(out, case['obs'], self.native, nspec, w)
         sampler = case['sampler']
         if sampler == 'nestle':
@@ -282,6 +298,10 @@ def check(case):
         fit_names = list(R.opt.fit_names)
         modes = getattr(R, 'modes', [np.arange(case['ns'])])
         W2, m2 = c06.build(case['world'], case['family'], case['ngauss'])      # independent instance
+        if 'T_excess' in case.get('derived', []):
+            with np.errstate(all='ignore'):
+                m2.model()
+            install_excess(m2)
         own = np.asarray(R.obs.wavenumberGrid, dtype=float)
         oww = np.asarray(R.obs.binWidths, dtype=float)
         for mi, idx in enumerate(modes):
